@@ -412,7 +412,7 @@ def run(tier, seed, replay=None):
     v = common.Verdict("C04", tier, seed)
     rng = common.rng_for(seed, "C04", tier)
     cat = catalog.load()
-    n_docs = 150 if tier == "quick" else 1500
+    n_docs = 600 if tier == "quick" else 1500
     stats = {"bindings": 0, "kinds": {}}
     samples = []
 
